@@ -12,6 +12,11 @@ def getRatListD (j : Json) (k : String) (n : Nat) : Except String (List Rat) :=
   | .ok _ => getRatList j k
   | .error _ => pure (List.replicate n 0)
 
+def getBoolD (j : Json) (k : String) (d : Bool) : Except String Bool :=
+  match j.getObjVal? k with
+  | .ok _ => getBool j k
+  | .error _ => pure d
+
 def zip3 (a b c : List Rat) : List (Rat × Rat × Rat) := (a.zip (b.zip c))
 
 def bitsCfgOfJson (j : Json) : Except String BitsCfg := do
@@ -63,6 +68,12 @@ def handle (j : Json) : Except String Json := do
       if 0 < c.bits - b2z c.keepNegative then
         pure <| Json.mkObj ([("y", ratsToJson ys)] ++ latOut (bitsLat c) (xs.map (bitsLevel c)) xs)
       else pure <| Json.mkObj [("y", ratsToJson ys)]
+    | "quantized_bits_auto" =>
+      -- alpha "auto" / "auto_po2": S = self.scale after the call, broadcast per element (oracle)
+      let c ← bitsCfgOfJson j
+      let ss ← getRatList j "S"
+      pure <| Json.mkObj [("y", ratsToJson ((xs.zip (ss.zip u1)).map fun (x, S, u) =>
+                                              quantizedBitsAny true c phase S x u))]
     | "quantized_linear" =>
       let c ← bitsCfgOfJson j
       let ys := (xs.zip u1).map fun (x, u) => quantizedLinear c phase x u
@@ -100,29 +111,43 @@ def handle (j : Json) : Except String Json := do
       let bits ← getInt j "bits"
       let mv ← getOptRat j "max_value"
       let stoch ← getBool j "stoch"
+      let floorMode ← getBoolD j "floor" false
+      let quad ← getBoolD j "quad" false
+      -- oracle: tf.sqrt(x_filter) of the selected side (only read under quadratic approximation)
+      let ss ← getRatListD j "s" n
       let isR := cls == "quantized_relu_po2"
       let ns := (← getOptRat j "neg_slope").getD 0
-      let c := if isR then reluPo2CfgOf bits mv stoch else po2CfgOf bits mv stoch
-      let ys := (zip3 xs u1 u2).map fun (x, a, b) =>
-        if isR then quantizedReluPo2 c ns phase x a b else quantizedPo2 c phase x a
+      let c := if isR then reluPo2CfgOf bits mv stoch floorMode quad else po2CfgOf bits mv stoch floorMode quad
+      let ys := (zip3 xs ss (u1.zip u2 |>.map fun _ => 0)).zip (u1.zip u2) |>.map fun ((x, s, _), (a, b)) =>
+        if isR then quantizedReluPo2 c ns phase x s a b else quantizedPo2 c phase x s a
       -- the magnitude that is rounded, and the sign of the emitted code
       let mag := fun (x : Rat) =>
         if isR then (if 0 ≤ x ∨ ns = 0 then relu x 0 else relu (-x) 0 * ns) else absR x
       let sg := fun (x : Rat) =>
         if isR then (if 0 ≤ x ∨ ns = 0 then (1 : Rat) else -1) else sgn1 x
       let yf := fun x => po2Filter c (mag x)
+      let qf := po2Qf c
+      let xss := xs.zip ss
       pure <| Json.mkObj [("y", ratsToJson ys),
         ("below", ratsToJson (xs.map fun x => sg x * pow2 (po2BelowExp c (mag x)))),
         ("above", ratsToJson (xs.map fun x => sg x * pow2 (po2AboveExp c (mag x)))),
         ("frac", ratsToJson (xs.map fun x => po2Frac c (mag x))),
         ("clipped", ratsToJson (xs.map fun x =>
-            sg x * (if mag x < epsK then pow2 c.minExp else clip (yf x) (pow2 c.minExp) (pow2 c.maxExp)))),
+            sg x * (if mag x < epsK then pow2 c.minExp
+                    else clip (yf x) (pow2 (qf * c.minExp)) (pow2 (qf * c.maxExp))))),
         ("xcode", boolsToJson (xs.map fun x => po2IsPow c (mag x) && decide (c.minExp ≤ po2Floor c (mag x))
                                       && decide (po2Floor c (mag x) ≤ c.maxExp) && decide (epsK ≤ mag x)
                                       && decide (yf x = mag x))),
         ("bracket_ok", boolsToJson (xs.map fun x =>
-            let l := po2Floor c (mag x); decide (pow2 l ≤ yf x) && decide (yf x < pow2 (l + 1)))),
-        ("h_ok", boolsToJson (xs.map fun x => po2H (yf x) (roundLog2 (yf x + epsK)))),
+            let l := po2Floor c (mag x)
+            decide (pow2 (qf * l) ≤ yf x) && decide (yf x < pow2 (qf * (l + 1))))),
+        ("h_ok", boolsToJson (xss.map fun (x, s) =>
+            let xin := po2Input c (mag x) s
+            po2H xin (roundLog2 (xin + epsK)))),
+        ("sqrt_ok", boolsToJson (xss.map fun (x, s) =>
+            !quad || (decide (0 < s) && decide (yf x * (1 - pow2 (-22)) ≤ s * s)
+                      && decide (s * s ≤ yf x * (1 + pow2 (-22)))))),
+        ("sqrt_exact", boolsToJson (xss.map fun (x, s) => !quad || decide (s * s = yf x))),
         ("tiny", boolsToJson (xs.map fun x => decide (mag x < epsK))),
         ("min_exp", Json.num c.minExp), ("max_exp", Json.num c.maxExp)]
     | "binary" =>
